@@ -34,7 +34,9 @@ ASSUME = [
     'status / optimal value / op.solve status are compared only for programs whose data survive 6 significant digits '
     'exactly; op.solve statuses of the two ops are compared only when both calls return (exceptions of op.solve itself - no '
     'inequality, scalar coefficient, rank - belong to other properties) and either both solve bit-identical matrices or '
-    'the exact classification says the LP is well posed (full rank, strictly feasible or strict certificate)',
+    'both statuses are definitive (not "unknown") and the exact classification says the LP is well posed (full rank, '
+    'strictly feasible or strict certificate); conelp does return "unknown" (singular KKT matrix) on one of two '
+    'column-permuted copies of some well-posed but degenerate tiny LPs',
     'the known zero-column defect is reported by the dedicated family only; in the general family it is counted as an '
     'outcome (otherwise thousands of identical reports would truncate the enumeration)',
     'variable renaming: labels name_i are tried first, then any column permutation (bounded search)',
@@ -593,6 +595,11 @@ def _roundtrip(ctx, lp, K, sub, exact, hasmat=False, report_zero_column=False):
         same_data = (how != 'search' and perm == list(range(M1['N'])) and M1['G'] == M2['G'] and M1['h'] == M2['h']
                      and M1['A'] == M2['A'] and M1['b'] == M2['b'] and M1['c'] == M2['c'])
         well = False
+        if not same_data and 'unknown' in (s1, s2):
+            # conelp gave up on one of two differently ordered (or trivially-reduced) copies: e.g. 'Terminated (singular
+            # KKT matrix)' on a degenerate vertex - a matter of the numerical solver, not of the MPS round trip
+            ctx.out('a:solve-unknown-on-one-side')
+            return
         if not same_data:
             cl = lpexact.classify(M1d['c'], M1d['G'], M1d['h'], M1d['A'], M1d['b'])
             well = cl['rank_ok'] and ((cl['status'] == 'optimal' and cl['strict_primal'] and cl['strict_dual'])
